@@ -692,6 +692,8 @@ class Interp:
             return Const(("operator", n.id))
         if n.id == "operator":
             return ModuleV("operator")
+        if n.id == "math":
+            return ModuleV("math")
         if n.id in ("np", "numpy"):
             return ModuleV("np")
         if n.id == "Matrix":
@@ -746,6 +748,8 @@ class Interp:
                 return Const(("np", attr))
             if base.name == "operator":
                 return Const(("operator", attr))
+            if base.name == "math":
+                return Const(("math", attr))
             if base.name in self.p.funcs and attr in self.p.funcs[base.name]:
                 return FuncV(self.p.funcs[base.name][attr], base.name)
             if base.name in self.p.classes and attr in self.p.classes[base.name]:
@@ -871,7 +875,10 @@ class Interp:
 
     def ev_YieldFrom(self, n, env: Env):
         v = self.ev(n.value, env)
-        env.yields.append(("FROM", v))
+        if isinstance(v, tuple) and v and v[0] == "GENFN":
+            env.yields.extend(v[1])                 # delegating to another generator function: its yields are this one's
+        else:
+            env.yields.append(("FROM", v))
         return Unknown("yield from")
 
     def ev_BinOp(self, n, env):
@@ -1191,6 +1198,8 @@ class Interp:
                 return args[0]
             if f.value[0] == "sympy" and f.value[1] == "Matrix":
                 a0 = args[0] if args else None
+                if len(args) == 3 and isinstance(args[1], Const) and args[1].value == 1:
+                    a0 = args[2]                      # Matrix(n, 1, entries): a column given with its shape
                 a0 = unwrap_elem(a0)
                 if isinstance(a0, SeqV):
                     # a vector of state-update expressions is the *next* state: prime its axis
@@ -1490,7 +1499,7 @@ class Interp:
             return SymMatV(base.rows, base.cols)           # elementwise derivative: same shape, same row / column meaning
         if isinstance(base, SymMatV) and attr == "jacobian":
             wrt = args[0]
-            lay = self.layout_of_iter(wrt)
+            lay = wrt.rows if isinstance(wrt, SymMatV) and wrt.cols == ONE else self.layout_of_iter(wrt)
             if lay is None:
                 return Unknown("jacobian wrt")
             return SymMatV(base.rows, lay)
